@@ -720,6 +720,133 @@ def int_idioms(tree):
     return T().visit(tree)
 
 
+def small_equivalences(tree):
+    """`if not X: X = C` is `X = X or C`;  `b"".join((a, b, c))` is `a + b + c`;
+    `if (not P) or Q: S1 else: S2` is `if P and (not Q): S2 else: S1` (same evaluation order and short-circuit);
+    `if X is None: return e` + statements ending in `return F` is `if X is not None: statements; e = F` + `return e`
+    (e a plain name, no other return in the statements)."""
+    class T(ast.NodeTransformer):
+        def visit_Call(self, n):
+            self.generic_visit(n)
+            if isinstance(n.func, ast.Attribute) and n.func.attr == "join" and isinstance(n.func.value, ast.Constant) \
+                    and n.func.value.value == b"" and len(n.args) == 1 and not n.keywords and isinstance(n.args[0], (ast.Tuple, ast.List)) \
+                    and len(n.args[0].elts) >= 2 and not any(isinstance(x, ast.Starred) for x in n.args[0].elts):
+                e = n.args[0].elts[0]
+                for x in n.args[0].elts[1:]:
+                    e = ast.BinOp(left=e, op=ast.Add(), right=x)
+                return ast.copy_location(e, n)
+            return n
+    tree = T().visit(tree)
+
+    def f(stmts):
+        out = []
+        i = 0
+        while i < len(stmts):
+            s = stmts[i]
+            if isinstance(s, ast.If) and not s.orelse and isinstance(s.test, ast.UnaryOp) and isinstance(s.test.op, ast.Not) \
+                    and isinstance(s.test.operand, ast.Name) and len(s.body) == 1 and isinstance(s.body[0], ast.Assign) \
+                    and len(s.body[0].targets) == 1 and isinstance(s.body[0].targets[0], ast.Name) \
+                    and s.body[0].targets[0].id == s.test.operand.id and isinstance(s.body[0].value, ast.Constant):
+                x = s.test.operand.id
+                out.append(ast.copy_location(ast.Assign(targets=[ast.Name(id=x, ctx=ast.Store())],
+                                                        value=ast.BoolOp(op=ast.Or(), values=[ast.Name(id=x, ctx=ast.Load()), s.body[0].value])), s))
+                i += 1
+                continue
+            if isinstance(s, ast.If) and s.orelse and not (len(s.orelse) == 1 and isinstance(s.orelse[0], ast.If)) \
+                    and isinstance(s.test, ast.BoolOp) and isinstance(s.test.op, ast.Or) and len(s.test.values) == 2 \
+                    and isinstance(s.test.values[0], ast.UnaryOp) and isinstance(s.test.values[0].op, ast.Not):
+                p_, q_ = s.test.values[0].operand, s.test.values[1]
+                s.test = ast.copy_location(ast.BoolOp(op=ast.And(), values=[p_, ast.UnaryOp(op=ast.Not(), operand=q_)]), s.test)
+                s.body, s.orelse = s.orelse, s.body
+            # `if <int> == 0: A else: B` is `if <int>: B else: A`; `if <int> != 0:` is `if <int>:` (a remainder or a length)
+            if isinstance(s, ast.If) and isinstance(s.test, ast.Compare) and len(s.test.ops) == 1 \
+                    and isinstance(s.test.comparators[0], ast.Constant) and s.test.comparators[0].value == 0 \
+                    and not isinstance(s.test.comparators[0].value, bool) \
+                    and ((isinstance(s.test.left, ast.BinOp) and isinstance(s.test.left.op, ast.Mod) and _pure_simple(s.test.left.left)
+                          and isinstance(s.test.left.right, ast.Constant) and isinstance(s.test.left.right.value, int))
+                         or (isinstance(s.test.left, ast.Call) and _pure_simple(s.test.left) and not isinstance(s.test.left, ast.Name))):
+                if isinstance(s.test.ops[0], ast.NotEq):
+                    s.test = s.test.left
+                elif isinstance(s.test.ops[0], ast.Eq) and s.orelse and not (len(s.orelse) == 1 and isinstance(s.orelse[0], ast.If)):
+                    s.test = s.test.left
+                    s.body, s.orelse = s.orelse, s.body
+            if isinstance(s, ast.If) and not s.orelse and isinstance(s.test, ast.Compare) and len(s.test.ops) == 1 \
+                    and isinstance(s.test.ops[0], ast.Is) and isinstance(s.test.left, ast.Name) \
+                    and isinstance(s.test.comparators[0], ast.Constant) and s.test.comparators[0].value is None \
+                    and len(s.body) == 1 and isinstance(s.body[0], ast.Return) and isinstance(s.body[0].value, ast.Name):
+                rest = stmts[i + 1:]
+                if rest and isinstance(rest[-1], ast.Return) and rest[-1].value is not None \
+                        and not any(isinstance(n, ast.Return) for r in rest[:-1] for n in ast.walk(r)):
+                    e = s.body[0].value.id
+                    body = rest[:-1] + [ast.copy_location(ast.Assign(targets=[ast.Name(id=e, ctx=ast.Store())], value=rest[-1].value), rest[-1])]
+                    s.test.ops = [ast.IsNot()]
+                    s.body = body
+                    out.append(s)
+                    out.append(ast.copy_location(ast.Return(value=ast.Name(id=e, ctx=ast.Load())), rest[-1]))
+                    return out
+            out.append(s)
+            i += 1
+        return out
+    tree.body = _map_body(tree.body, f)
+    return tree
+
+
+def unchain_cipher_construction(tree):
+    """`_Cipher(…).encryptor()` written in one expression — alone, or as the receiver at the very start of a statement's
+    expression (`return _Cipher(…).encryptor().update(x)[:n]`) — is split into the statements the sources use:
+    `c = _Cipher(…)`, `e = c.encryptor()`, then the rest.  The receiver chain is evaluated before anything else in the
+    statement, so the order of evaluation is unchanged."""
+    counter = [0]
+
+    def is_ctx_call(e):
+        return (isinstance(e, ast.Call) and isinstance(e.func, ast.Attribute) and e.func.attr in ("encryptor", "decryptor") and not e.args
+                and not e.keywords and isinstance(e.func.value, ast.Call) and isinstance(e.func.value.func, ast.Name)
+                and e.func.value.func.id == "_Cipher")
+
+    def leftmost(e):
+        """path to the leftmost-evaluated sub-expression: list of (parent, field)"""
+        path = []
+        cur = e
+        while True:
+            if is_ctx_call(cur):
+                return path, cur
+            if isinstance(cur, ast.Subscript):
+                path.append((cur, "value")); cur = cur.value
+            elif isinstance(cur, ast.Call) and isinstance(cur.func, ast.Attribute):
+                path.append((cur.func, "value")); cur = cur.func.value
+            elif isinstance(cur, ast.Attribute):
+                path.append((cur, "value")); cur = cur.value
+            elif isinstance(cur, ast.BinOp):
+                path.append((cur, "left")); cur = cur.left
+            else:
+                return None, None
+
+    def f(stmts):
+        out = []
+        for s in stmts:
+            val = s.value if isinstance(s, (ast.Assign, ast.Return, ast.Expr)) else None
+            if val is not None:
+                path, node = leftmost(val)
+                if node is not None:
+                    counter[0] += 1
+                    c, e = f"_cipher{counter[0]}", f"_context{counter[0]}"
+                    out.append(ast.copy_location(ast.Assign(targets=[ast.Name(id=c, ctx=ast.Store())], value=node.func.value), s))
+                    ctx_call = ast.Call(func=ast.Attribute(value=ast.Name(id=c, ctx=ast.Load()), attr=node.func.attr, ctx=ast.Load()), args=[], keywords=[])
+                    if not path:                             # the whole right-hand side
+                        s.value = ctx_call
+                        out.append(s)
+                    else:
+                        out.append(ast.copy_location(ast.Assign(targets=[ast.Name(id=e, ctx=ast.Store())], value=ctx_call), s))
+                        parent, field = path[-1]
+                        setattr(parent, field, ast.Name(id=e, ctx=ast.Load()))
+                        out.append(s)
+                    continue
+            out.append(s)
+        return out
+    tree.body = _map_body(tree.body, f)
+    return tree
+
+
 def swap_is_not_none(tree):
     """`if X is not None: A else: B` is `if X is None: B else: A`"""
     def f(stmts):
@@ -742,6 +869,7 @@ def normalise_light(tree, signatures=None, aliases=None):
     tree = drop_zero_lower_bounds(tree)
     tree = split_chained_compares(tree)
     tree = ifexp_to_if(tree)
+    tree = small_equivalences(tree)
     tree = swap_is_not_none(tree)
     if signatures:
         tree = keywords_to_positional(tree, signatures, aliases or {})
@@ -756,6 +884,8 @@ def normalise(tree, public=(), signatures=None, aliases=None):
     tree = split_chained_compares(tree)
     tree = ifexp_to_if(tree)
     tree = unroll_constant_loops(tree)
+    tree = small_equivalences(tree)
+    tree = unchain_cipher_construction(tree)
     tree = push_call_into_branches(tree)
     tree = split_none_elif(tree)
     tree = inline_expression_helpers(tree, set(public))
